@@ -80,7 +80,11 @@ def build_page(seed, levels, mask, rot, heavy):
         if j % 2 == 0:
             blk.append(M.AComment([M.W("c"), ("tag", "+", f"ctag{j}"), ("link", f"clink{j}"),
                                    ("prop", "ck", f"cv{j}"), ("date", "2022-02-02")]))
-            blk.append(M.AItem(kind="-", words=[M.W(f"plain{j}")]))
+            if j % 4 == 2:
+                # the first body word is an inline property
+                blk.append(M.AItem(kind="-", words=[("iprop", f"lead{j}", ["first", "word"]), M.W(f"plain{j}")]))
+            else:
+                blk.append(M.AItem(kind="-", words=[M.W(f"plain{j}")]))
         else:
             item = M.AItem(kind="o" if j % 4 == 1 else "-",
                            words=[M.W(f"own{j}"), ("tag", "+", f"otag{j}"),
